@@ -578,6 +578,12 @@ def judge_c07(rec):
                             )
                         )
                         break
+            no_cancel_source = (not spec["flags"].get("drop_skipped_tasks") and not spec["policy"].get("enforce_deadlines")
+                                and spec["policy"]["name"] in ("EDF", "FIFO", "LSF", "Scripted"))
+            if no_cancel_source and state[T] == "CANCELLED":
+                # the conditional ran (so it is on a taken path) and nothing in this world cancels on its own: its join can
+                # only have been cancelled by mistake, whatever the policy does or does not place
+                V.append(Violation("join_cancelled", f"{c}@{gname} took {taken} ({state[taken]}); its join {T} is CANCELLED; {short(spec)}", "c07.join_cancelled" + tag))
             if strict and getattr(rec, "_c07_must_finish", False):
                 # the join and everything after it ran exactly once - unless an enclosing branch was itself not taken
                 for n in after_T:
